@@ -1,23 +1,134 @@
-//! Hostile / foreign traffic generators (C06, C17). Filled in with those scenarios.
+//! Hostile / foreign traffic generators (C06, C17, C31). Datagrams are built here byte by byte from
+//! the RTPS 2.4 wire format, independently of dust-dds' own encoder.
 
+use crate::core::{now_ns, sleep_ns, step};
 use crate::hist::*;
+use crate::net::{self, Port};
 use crate::plan::*;
 use crate::world::World;
 use std::rc::Rc;
 
+pub fn foreign_prefix(id: u32) -> [u8; 12] {
+    let mut p = [0u8; 12];
+    p[0] = 0xF0;
+    p[1..5].copy_from_slice(&id.to_be_bytes());
+    p[11] = 0x01;
+    p
+}
+
 pub fn foreign_handle(id: u32) -> Hd {
     let mut h = [0u8; 16];
-    h[0] = 0xF0;
-    h[1..5].copy_from_slice(&id.to_be_bytes());
+    h[..12].copy_from_slice(&foreign_prefix(id));
     h[12..16].copy_from_slice(&[0, 0, 1, 0xc1]);
     h
 }
 
-pub fn inject_op(_w: &Rc<World>, _dst_p: u32, _port: u8, _gen: &InjectGen, _delay_us: u64) -> Res {
-    Res::Skipped("inject not implemented")
+pub fn rtps_header(prefix: &[u8; 12]) -> Vec<u8> {
+    let mut v = b"RTPS".to_vec();
+    v.extend_from_slice(&[2, 4, 0x01, 0x14]);
+    v.extend_from_slice(prefix);
+    v
+}
+
+pub fn submessage(id: u8, flags: u8, body: &[u8]) -> Vec<u8> {
+    let mut v = vec![id, flags];
+    v.extend_from_slice(&(body.len() as u16).to_le_bytes());
+    v.extend_from_slice(body);
+    v
+}
+
+fn param(id: u16, value: &[u8]) -> Vec<u8> {
+    let mut v = id.to_le_bytes().to_vec();
+    let padded = value.len().div_ceil(4) * 4;
+    v.extend_from_slice(&(padded as u16).to_le_bytes());
+    v.extend_from_slice(value);
+    v.resize(4 + padded, 0);
+    v
+}
+
+fn locator(addr4: [u8; 4], port: u32) -> Vec<u8> {
+    let mut v = 1i32.to_le_bytes().to_vec();
+    v.extend_from_slice(&port.to_le_bytes());
+    v.extend_from_slice(&[0; 12]);
+    v.extend_from_slice(&addr4);
+    v
+}
+
+/// SPDP announcement of a participant that does not exist in the simulation
+pub fn spdp_datagram(id: u32, sn: i64, domain_in_msg: Option<i32>, tag: Option<&str>, lease_ns: u64) -> Vec<u8> {
+    let prefix = foreign_prefix(id);
+    let mut pl: Vec<u8> = vec![0x00, 0x03, 0x00, 0x00]; // PL_CDR_LE
+    pl.extend(param(0x0050, &foreign_handle(id)));
+    if let Some(d) = domain_in_msg {
+        pl.extend(param(0x000f, &d.to_le_bytes()));
+    }
+    if let Some(t) = tag {
+        let mut s = ((t.len() + 1) as u32).to_le_bytes().to_vec();
+        s.extend_from_slice(t.as_bytes());
+        s.push(0);
+        pl.extend(param(0x4014, &s));
+    }
+    pl.extend(param(0x0015, &[2, 4]));
+    pl.extend(param(0x0016, &[0x01, 0x14]));
+    pl.extend(param(0x0032, &locator([10, 9, 9, (id % 250) as u8 + 1], 7410)));
+    pl.extend(param(0x0031, &locator([10, 9, 9, (id % 250) as u8 + 1], 7411)));
+    pl.extend(param(0x0058, &0x0000_0003u32.to_le_bytes())); // participant announcer + detector only
+    let mut lease = ((lease_ns / 1_000_000_000) as i32).to_le_bytes().to_vec();
+    lease.extend_from_slice(&((lease_ns % 1_000_000_000) as u32).to_le_bytes());
+    pl.extend(param(0x0002, &lease));
+    pl.extend(param(0x0001, &[]));
+    let mut body = vec![0u8, 0, 16, 0]; // extraFlags, octetsToInlineQos
+    body.extend_from_slice(&[0, 0, 0, 0]); // reader: unknown
+    body.extend_from_slice(&[0x00, 0x01, 0x00, 0xc2]); // SPDP builtin participant writer
+    body.extend_from_slice(&((sn >> 32) as i32).to_le_bytes());
+    body.extend_from_slice(&(sn as u32).to_le_bytes());
+    body.extend_from_slice(&pl);
+    let mut d = rtps_header(&prefix);
+    d.extend(submessage(0x15, 0x05, &body));
+    d
 }
 
 #[allow(clippy::too_many_arguments)]
-pub async fn foreign_spdp(_w: &Rc<World>, _id: u32, _dst_p: u32, _domain: i32, _domain_in_msg: Option<i32>, _tag: Option<String>, _lease_ms: u64, _every_ms: u64, _count: u32) -> Res {
-    Res::Skipped("foreign spdp not implemented")
+pub async fn foreign_spdp(w: &Rc<World>, id: u32, dst_p: u32, _domain: i32, domain_in_msg: Option<i32>, tag: Option<String>, lease_ms: u64, every_ms: u64, count: u32) -> Res {
+    let Some(node) = w.node_of(dst_p) else { return Res::Skipped("no participant") };
+    let mut last = 0;
+    for i in 0..count {
+        let d = spdp_datagram(id, i as i64 + 1, domain_in_msg, tag.as_deref(), lease_ms * 1_000_000);
+        let lat = net::with_net(|n| n.plan.latency_us) * 1000;
+        net::inject(node, Port::MetaMulti, d, lat);
+        last = now_ns() + lat;
+        let (s, t) = (step(), last);
+        with_hist(|h| h.marks.push((format!("foreign-{id}-announce"), s, t)));
+        if i + 1 < count {
+            sleep_ns(every_ms * 1_000_000).await;
+        }
+    }
+    Res::Int(last as i64)
+}
+
+fn unhex(s: &str) -> Vec<u8> {
+    let b: Vec<u8> = s.bytes().filter(|c| c.is_ascii_hexdigit()).collect();
+    b.chunks(2).filter(|c| c.len() == 2).map(|c| u8::from_str_radix(std::str::from_utf8(c).unwrap(), 16).unwrap_or(0)).collect()
+}
+
+pub fn inject_op(w: &Rc<World>, dst_p: u32, port: u8, generator: &InjectGen, delay_us: u64) -> Res {
+    let Some(node) = w.node_of(dst_p) else { return Res::Skipped("no participant") };
+    let port = match port {
+        0 => Port::MetaUni,
+        1 => Port::UserUni,
+        _ => Port::MetaMulti,
+    };
+    let bytes: Option<Vec<u8>> = match generator {
+        InjectGen::Raw { hex } => Some(unhex(hex)),
+        InjectGen::Mutate { class, nth, muts } => crate::hostile2::mutate(node, *class, *nth, muts),
+        InjectGen::Craft { kind, spoof_p, a, b, c, d } => crate::hostile2::craft(w, node, kind, *spoof_p, *a, *b, *c, *d),
+    };
+    match bytes {
+        Some(b) => {
+            let n = b.len();
+            net::inject(node, port, b, delay_us * 1000);
+            Res::Int(n as i64)
+        }
+        None => Res::Skipped("nothing to inject"),
+    }
 }
